@@ -144,3 +144,15 @@ PROPS["C15"] = dict(
     assumptions=["atoms are printable: grammar symbols, strings, int64, one-letter variables (floats print in a form that lexes as a symbol and are excluded, as in the property)"],
     explanation="token-level model of SExpr.String; round trip through the grammar; tie: String() -> Parse -> String() on generated expressions, and stability on accepted inputs",
 )
+
+PROPS["C07"] = dict(
+    model="MemModel.v (memory-level: heap objects, slices as (array,len,cap), maps, stream cells)",
+    harness=[dict(name="main", n_quick=600, n_thorough=1500, shards_quick=1, shards_thorough=8, timeout=1500),
+             dict(name="race", race=True, n_quick=0, n_thorough=300, shards_thorough=2, coq=False, timeout=1500)],
+    mismatch_is_input=True,
+    trusted=_PROG_TRUSTED + _GOMINI_TRUSTED + ["that the Go functions contain no other writes than the ones transcribed in MemModel.v is what the harness checks: every value published earlier (input state, earlier answers, earlier versions of a history) is re-read after later operations and compared with what it showed when it was published",
+                                                "gomini goal trees are evaluated concurrently; the thorough tier repeats the harness under the race detector (supporting validation, not a theorem)"],
+    assumptions=["Substitutions.String() (which sorts its receiver in place) is not a goal; the harness never calls it",
+                 "bindings are observed as the sequence of pairs (micro) / the map (gomini), not as memory addresses"],
+    explanation="invariant proofs over a memory-level model (every write of an operation targets an object allocated by that operation; earlier views unchanged; siblings independent; memoised stream cells; refutations for append-based exts and in-place Set); tie: histories of the real exts/Set/NewVar against the model's views, snapshot oracles on goal programs in micro, gomini and concurrent",
+)
